@@ -349,6 +349,23 @@ HOSTILE_ADDITIONS = {'unix', 'dos', 'mac', 'json', 'yaml', 'text', 'binary',
                      '..meta', '..file', '...meta', '...diff'}
 
 
+class RawSink(io.RawIOBase):
+    """An unbuffered binary sink (what open(path, 'wb', buffering=0) or a
+    socket's raw file object is): a real io.RawIOBase in front of the
+    simulated handle, so every write() still is an event there."""
+
+    def __init__(self, handle):
+        io.RawIOBase.__init__(self)
+        self._h = handle
+
+    def writable(self):
+        return True
+
+    def write(self, b):
+        self._h.write(b)
+        return len(b)
+
+
 class WriterActor(Actor):
     kind = 'writer'
 
@@ -384,6 +401,10 @@ class WriterActor(Actor):
                 kw['version'] = pyval(self.spec['version'])
 
             wcls = L.DiffXWriter
+            sink = self.handle
+
+            if self.spec.get('raw_sink'):
+                sink = self.sink = RawSink(self.handle)
 
             if self.spec.get('subclassed'):
                 # a subclass that overrides nothing, handed subclass
@@ -403,7 +424,7 @@ class WriterActor(Actor):
 
             self._guarded(world, -1, 'ctor',
                           lambda: setattr(self, 'w',
-                                          wcls(self.handle, **kw)))
+                                          wcls(sink, **kw)))
 
             if self.w is None and not self.done:
                 self._end(world)
@@ -962,8 +983,21 @@ class ReaderActor(Actor):
                 self.handle = self.stream = FollowHandle(world, fname,
                                                          self.id)
                 cls = sized_reader_cls(L, self.spec.get('block_size'))
-                self.it = iter(make_reader(cls, self.stream, False, world))
                 world.faults['reader_follows_growing_file'] += 1
+
+                try:
+                    self.it = iter(make_reader(cls, self.stream, False,
+                                               world))
+                except (SimEventCap, SimHang):
+                    raise
+                except Exception as e:
+                    self.it = iter(())
+                    self.end = 'raise'
+                    self.exc = e
+                    self.exc_info = exc_summary(e, L)
+                    self.done = True
+                    world.ev(self.id, 'raise', self.exc_info['type'], None)
+
                 return
 
             if self.spec.get('wait', True) and \
